@@ -722,7 +722,8 @@ class Response(StreamResponse):
     async def _do_start_compression(self, coding: ContentCoding) -> None:
         if self._chunked or isinstance(self._body, Payload):
             return await super()._do_start_compression(coding)
-        if coding is ContentCoding.identity:
+        if coding is ContentCoding.identity or self._body is None:
+            # Nothing to compress (a response without a body included).
             return
         # Instead of using _payload_writer.enable_compression,
         # compress the whole body
@@ -731,7 +732,6 @@ class Response(StreamResponse):
             max_sync_chunk_size=self._zlib_executor_size,
             executor=self._zlib_executor,
         )
-        assert self._body is not None
         self._compressed_body = (
             await compressor.compress(self._body) + compressor.flush()
         )
